@@ -11,7 +11,8 @@ namespace sim {
 struct Profile {
 	std::string name = "all";
 	// family weights
-	int w_ctor = 10, w_dtor = 3, w_assign = 10, w_move = 5, w_swap = 3, w_resize = 8, w_viewwrite = 10, w_read = 4, w_alloc_forms = 3, w_conv = 3, w_il = 3;
+	int w_ctor = 10, w_dtor = 3, w_assign = 10, w_move = 5, w_swap = 3, w_resize = 8, w_viewwrite = 10, w_read = 4, w_alloc_forms = 3, w_conv = 3, w_il = 3, w_save = 0, w_load = 0;
+	bool faults_stream = false;
 	int fault_free_pct = 40;   // percentage of runs without any fault
 	bool faults_alloc = true, faults_elem = true;
 	int  max_arenas = 3;
@@ -28,6 +29,9 @@ inline Profile profile_by_name(std::string const& n) {
 	else if(n == "fault") { p.fault_free_pct = 0; }
 	else if(n == "alloc") { p.w_alloc_forms = 14; p.w_move = 12; p.w_swap = 6; p.w_assign = 12; p.w_viewwrite = 2; p.w_resize = 5; p.max_arenas = 4; p.fault_free_pct = 75; p.faults_elem = false; }
 	else if(n == "nofault") { p.fault_free_pct = 100; }
+	else if(n == "ser") { p.w_save = 14; p.w_load = 18; p.w_viewwrite = 5; p.w_resize = 6; p.w_ctor = 12; p.w_conv = 1; p.w_il = 1; p.faults_stream = true; p.fault_free_pct = 60; }
+	else if(n == "serfault") { p.w_save = 14; p.w_load = 18; p.w_viewwrite = 5; p.w_resize = 6; p.w_ctor = 12; p.w_conv = 1; p.w_il = 1; p.faults_stream = true; p.fault_free_pct = 0; }
+	else if(n == "sernofault") { p.w_save = 14; p.w_load = 18; p.w_viewwrite = 5; p.w_resize = 6; p.w_ctor = 12; p.w_conv = 1; p.w_il = 1; p.fault_free_pct = 100; }
 	return p;
 }
 
@@ -268,6 +272,32 @@ struct Gen {
 				o.a    = o.kind == O_CTOR_IL ? dead_slot(D) : alive_slot(D);
 				break;
 			}
+			case 11: {  // save
+				o.kind = O_SAVE;
+				o.a    = alive_slot(D);
+				o.file = rng.below(NFILE);
+				o.arch = rng.below(3);
+				o.var  = rng.below(2);
+				break;
+			}
+			case 12: {  // load
+				o.kind = O_LOAD;
+				std::vector<int> fs;
+				for(int f = 0; f < NFILE; ++f)
+					if(M.files[f].valid) fs.push_back(f);
+				if(fs.empty()) continue;
+				o.file = rng.pick(fs);
+				MFile const& f = M.files[o.file];
+				if(f.is_array) {
+					D    = f.D;
+					o.da = D;
+					if(D < T.dmin || D > T.dmax) continue;
+					o.a = alive_slot(D);
+				} else {
+					o.a = alive_slot(D);
+				}
+				break;
+			}
 			default: return false;
 			}
 			if(o.a < 0) continue;
@@ -414,6 +444,32 @@ struct Gen {
 				break;
 			}
 			case O_ASSIGN_SELF: if(family == 2) o.var = rng.below(2); break;
+			case O_SAVE: {
+				if(o.var == 1) {
+					MView v;
+					if(!find_view(D, o.a, -1, nullptr, false, o.ca, v) || v.count() == 0) continue;
+				}
+				break;
+			}
+			case O_LOAD: {
+				MFile const& f = M.files[o.file];
+				if(!f.is_array) {
+					MView like;
+					like.D = f.D;
+					for(int k = 0; k < f.D; ++k) like.n[k] = f.n[k];
+					like.off.resize(static_cast<std::size_t>(f.count()));
+					MView v;
+					bool  found = false;
+					for(int t = 0; t < 4 && !found; ++t) {
+						o.da = rdim();
+						o.a  = alive_slot(o.da);
+						if(o.a < 0) continue;
+						found = fit_view(o.da, o.a, like, o.ca, v) || find_view(o.da, o.a, f.D, &like, false, o.ca, v, 6);
+					}
+					if(!found) continue;
+				}
+				break;
+			}
 			default: break;
 			}
 			if(plan_effect(M, T, o, e)) return true;
@@ -424,6 +480,7 @@ struct Gen {
 	Plan generate() {
 		Plan p;
 		p.knobs.reuse = rng.chance(1, 2);
+		if(T.serialization) p.knobs.chunk_r = std::vector<int>{0, 1, 1, 2, 3, 7, 64}[static_cast<std::size_t>(rng.below(7))];
 		maxext        = std::vector<int>{1, 2, 2, 3, 3, 3, 4, 4}[static_cast<std::size_t>(rng.below(8))];
 		narena        = rng.range(1, P.max_arenas);
 		bool const fault_free = rng.below(100) < P.fault_free_pct;
@@ -456,9 +513,9 @@ struct Gen {
 			else nops = rng.range(26, P.max_ops);
 		}
 		// swarm: disable a random subset of families for this run
-		std::vector<int> w = {P.w_ctor, P.w_dtor, P.w_assign, P.w_move, P.w_swap, P.w_resize, P.w_viewwrite, P.w_read, P.w_alloc_forms, P.w_conv, P.w_il};
+		std::vector<int> w = {P.w_ctor, P.w_dtor, P.w_assign, P.w_move, P.w_swap, P.w_resize, P.w_viewwrite, P.w_read, P.w_alloc_forms, P.w_conv, P.w_il, T.serialization ? P.w_save : 0, T.serialization ? P.w_load : 0};
 		for(std::size_t k = 1; k < w.size(); ++k)
-			if(rng.chance(1, 5)) w[k] = 0;
+			if(rng.chance(1, 5) && k < 11) w[k] = 0;
 		if(narena == 1) w[8] = w[8] / 2;
 		if(T.static_arrays) { w[3] = w[3] / 2; w[5] = 0; }
 		bool retry_pending = false;
@@ -484,7 +541,17 @@ struct Gen {
 				got = make(fam, o, e);
 			}
 			if(!got) continue;
-			if(pfault > 0 && rng.below(100) < pfault && !e.reads_only) {
+			if(pfault > 0 && P.faults_stream && (o.kind == O_LOAD || o.kind == O_SAVE) && rng.below(100) < std::max(pfault, 30)) {
+				o.fk = o.kind == O_LOAD ? F_EOF : F_WERR;
+				long const approx = 40 + 14 * std::max<long>(1, e.elems);
+				int const  r      = rng.below(10);
+				o.fn = r < 2 ? rng.below(12) : r < 4 ? static_cast<int>(approx) - rng.below(12) : rng.below(static_cast<int>(approx) + 20);
+				if(o.fn < 0) o.fn = 0;
+				if(o.kind == O_LOAD && rng.chance(1, 2)) {
+					retry_pending = true;
+					retry_op      = o;
+				}
+			} else if(pfault > 0 && rng.below(100) < pfault && !e.reads_only) {
 				o.fk        = fkinds[static_cast<std::size_t>(rng.below(static_cast<int>(fkinds.size())))];
 				long const n = std::max<long>(1, e.elems);
 				int const  r = rng.below(10);
@@ -500,6 +567,7 @@ struct Gen {
 			}
 			// model transition (the generator assumes faults do not fire; execution re-validates every op)
 			for(int k = 0; k < e.nt; ++k) M.at(e.tD[k], e.ti[k]) = e.next[k];
+			if(o.kind == O_SAVE && e.file_id >= 0) M.files[e.file_id] = e.file_next;
 			p.ops.push_back(o);
 		}
 		return p;
